@@ -276,6 +276,36 @@ def run(ctx):
         except Exception as e:
             ctx.fail('CliffordCircuit.compose', 'implementation raised %r' % e, dict(N=n))
         ctx.case(('circuit-compose', n, _), True, sample=dict(op='compose then extend', N=n))
+    # ---- a measurement circuit / layer applied again: its own observables are not rewritten by a run (deterministic outcomes recur)
+    for _ in range(ctx.budget(40, 400)):
+        N = rng.choice([1, 2, 3, 4])
+        bits = [rng.randrange(2) for _q in range(N)]
+        qs = rng.sample(range(N), rng.randrange(1, N + 1))
+        try:
+            circ = CI.Circuit(N)
+            for q_ in range(N):
+                if bits[q_]:
+                    circ.take(CI.X(q_))
+            circ.measure(*qs)
+            want = [(-1 if bits[q_] else 1) for q_ in qs]
+            ctx.case(('measure-again', N, tuple(bits), tuple(qs)), True, sample=dict(op='measurement circuit used repeatedly', N=N, bits=bits, qubits=qs))
+            ctx.count('measure-again')
+            snap_layers = None
+            for run_ in range(3):
+                st = pc.zero_state(N)
+                before = len(circ.measure_result)
+                circ.forward(st)
+                got = [int(v) for v in circ.measure_result[before:]]
+                if got != want:
+                    ctx.fail('MeasureLayer.forward', 'run %d of the same measurement circuit on a fresh basis state |%s> reports %s, the state dictates %s' % (run_ + 1, ''.join(map(str, bits)), got, want),
+                             dict(N=N, bits=bits, qubits=qs, run=run_ + 1)); break
+                obs_now = [(np.asarray(l_.gs).tolist(), np.asarray(l_.ps).tolist()) for l_ in circ.layers_forward() if hasattr(l_, 'gs') and not hasattr(l_, 'gates')]
+                if snap_layers is None:
+                    snap_layers = obs_now
+                elif obs_now != snap_layers:
+                    ctx.fail('MeasureLayer.forward', 'a run rewrote the observables stored in the measurement layer', dict(N=N, bits=bits, qubits=qs, before=str(snap_layers)[:200], after=str(obs_now)[:200])); break
+        except Exception as e:
+            ctx.fail('MeasureLayer.forward', 'implementation raised %r' % e, dict(N=N, bits=bits, qubits=qs))
     # ---- in-place operations change the receiver, never the arguments
     for _ in range(ctx.budget(150, 1500)):
         n = rng.choice([1, 2, 3, 4])
